@@ -377,8 +377,13 @@ pub fn mcase_strategy(prop: &str, tier: Tier) -> BoxedStrategy<MCase> {
                     ]
                 })
                 .boxed();
+            // the very same proposal submitted twice in a row by one member: two proposals, two ids
+            let twice = (by_member(), pay(&prop_s)).prop_map(|(by, pay)| {
+                let p = Op::Propose { by, msgs: vec![], latest: Latest::None, pay: if pay == Pay::None { Pay::None } else { Pay::Exact } };
+                vec![p.clone(), p]
+            }).boxed();
             let groups = if prop_s == "C05" {
-                prop_oneof![12 => single, 3 => campaign, 2 => retry].boxed()
+                prop_oneof![12 => single, 3 => campaign, 2 => retry, 1 => twice].boxed()
             } else if prop_s == "C06" {
                 prop_oneof![12 => single, 3 => campaign, 1 => long_haul].boxed()
             } else {
@@ -1099,7 +1104,10 @@ pub fn run_mcase(prop: &str, case: &MCase, ctx: &mut CaseCtx) -> Result<(), Viol
                 if w.deposit.map(|d| d.cw20).unwrap_or(false) {
                     pre = w.observe().map_err(qerr)?;
                 }
-                let msg = cw3_fixed_multisig::msg::ExecuteMsg::Propose { title: format!("t{tag}"), description: format!("d{tag}"), msgs: cmsgs, latest: latest_e };
+                // proposals without messages all read the same: the same member may well submit the very same
+                // proposal twice in a row (each submission is a proposal of its own, with its own id)
+                let (title, description) = if msgs.is_empty() { ("plain".to_string(), "no messages".to_string()) } else { (format!("t{tag}"), format!("d{tag}")) };
+                let msg = cw3_fixed_multisig::msg::ExecuteMsg::Propose { title, description, msgs: cmsgs, latest: latest_e };
                 let r = try_exec(&mut w.app, &w.actors[by].clone(), &w.multisig.clone(), &msg, &funds);
                 let id = r.as_ref().ok().and_then(|resp| {
                     resp.events.iter().flat_map(|e| e.attributes.iter()).find(|a| a.key == "proposal_id").and_then(|a| a.value.parse::<u64>().ok())
@@ -1520,7 +1528,7 @@ fn oracle_c05(w: &World, pre: &Obs, post: &Obs, done: &Done, models: &mut [PMode
         if !okk {
             return Err(v(prop, "expiry-beyond-max", format!("{at}: new proposal {} expires {:?}, maximum voting period allows at most {:?}", m.id, o.expires, max)));
         }
-        if o.proposer != w.actors[*by].as_str() || o.title != format!("t{}", m.tag) || o.msgs.len() != m.msgs.len() {
+        if o.proposer != w.actors[*by].as_str() || o.title != (if m.msgs.is_empty() { "plain".to_string() } else { format!("t{}", m.tag) }) || o.msgs.len() != m.msgs.len() {
             return Err(v(prop, "content-not-as-proposed", format!("{at}: stored proposal {} differs from what was proposed", m.id)));
         }
     }
